@@ -378,3 +378,71 @@ def k_lunar_to_solar(eng):
 
     r = run_kernel(eng, "02.c2/B/lunar-to-solar", "02.c", "every month first day number, every day 1..30 (cache empty)", build, None, None)
     return _finish(r, holder["ctx"]) if "ctx" in holder else r
+
+
+def k_lunar_day_next(eng):
+    """LunarDay::next(n): the lunar date of the civil day n days after this lunar day's civil day (n = 0: itself).  A result built
+    directly by LunarDay::from_ymd is accepted only when its (year, month-with-leap) identify this very month and the day stays
+    inside it; any other month identity is a month the specification knows nothing about."""
+    from .seasons import DayV
+    holder = {}
+
+    class LD:
+        def __init__(self, t):
+            self.t = t        # day number of the civil day this lunar day denotes
+
+    def build(eng):
+        fields = struct_fields(os.path.join(REPO, "src/tyme/lunar.rs"), "LunarDay")
+        mfields = struct_fields(os.path.join(REPO, "src/tyme/lunar.rs"), "LunarMonth")
+        yfields = struct_fields(os.path.join(REPO, "src/tyme/lunar.rs"), "LunarYear")
+        fn = M.find_fn(eng.fns, "next", "&LunarDay", 2)
+        ctx = _ctx(eng, {"LunarDay::get_year": ("get_year", "&LunarDay", None), "LunarDay::get_month": ("get_month", "&LunarDay", None), "LunarDay::get_day": ("get_day", "&LunarDay", None),
+                         "LunarMonth::get_year": ("get_year", "&LunarMonth", None), "LunarMonth::get_month_with_leap": ("get_month_with_leap", "&LunarMonth", None),
+                         "LunarMonth::get_month": ("get_month", "&LunarMonth", None), "LunarMonth::get_day_count": ("get_day_count", "&LunarMonth", None),
+                         "LunarYear::get_year": ("get_year", "&LunarYear", None), "LunarMonth::is_leap": ("is_leap", "&LunarMonth", None)})
+        rec = Rec(ctx, "self", "LunarDay")
+        day = rec.field(fields.index("day"), "usize")
+        mrec = rec.field(fields.index("month"), "LunarMonth")
+        month = mrec.field(mfields.index("month"), "usize")
+        leap = mrec.field(mfields.index("leap"), "bool")
+        dcount = mrec.field(mfields.index("day_count"), "usize")
+        year = mrec.field(mfields.index("year"), "LunarYear").field(yfields.index("year"), "isize")
+        F0 = ctx.fresh_value("first_day_of_this_month", "isize")
+        n = ctx.fresh_value("n", "isize")
+        holder.update(ctx=ctx)
+        model = ctx.model
+        base = model.call
+        mw = "(ite %s (- %s) %s)" % (leap.s, month.s, month.s)
+
+        def call(c, fr, callee, args, path):
+            a = [model.deref(c, x) for x in args]
+            if callee == "LunarDay::get_solar_day" and a[0] is rec:
+                return True, DayV(T("(+ %s %s (- 1))" % (F0.s, day.s), "Int"))          # 02.c2
+            if callee == "<SolarDay as Tyme>::next" and isinstance(a[0], DayV) and isinstance(a[1], T):
+                return True, DayV(T("(+ %s %s)" % (a[0].t.s, a[1].s), "Int"))            # 01.g
+            if callee == "SolarDay::get_lunar_day" and isinstance(a[0], DayV):
+                return True, LD(a[0].t)                                                   # 02.c
+            if callee == "<LunarDay as Clone>::clone" and a[0] is rec:
+                return True, LD(T("(+ %s %s (- 1))" % (F0.s, day.s), "Int"))
+            if callee in ("LunarDay::from_ymd", "LunarDay::new") and len(a) == 3 and all(isinstance(x, T) for x in a):
+                same = "(and (= %s %s) (= %s %s) (<= 1 %s) (<= %s %s))" % (a[0].s, year.s, a[1].s, mw, a[2].s, a[2].s, dcount.s)
+                unknown = c.fresh_value("day_number_of_some_other_lunar_day", "isize")
+                return True, LD(T("(ite %s (+ %s %s (- 1)) %s)" % (same, F0.s, a[2].s, unknown.s), "Int"))
+            return base(c, fr, callee, args, path)
+        model.call = call
+        paths = ctx.run(fn, [("refrec", rec), n])
+        pre = ["(<= 1 %s 12)" % month.s, "(<= 29 %s 30)" % dcount.s, "(<= 1 %s %s)" % (day.s, dcount.s), "(<= (- 1000) %s 1000)" % n.s, "(<= 1721424 %s 5373000)" % F0.s,
+               "(<= (- 1) %s 9999)" % year.s]
+
+        def shape(p):
+            return None if isinstance(p.ret, LD) else "result is not a lunar day derived from a civil day or from this month"
+        return ctx, paths, pre, (lambda p: [("n-days-later", "(= %s (+ %s %s (- 1) %s))" % (p.ret.t.s, F0.s, day.s, n.s))]), shape
+
+    def replay(eng, model):
+        nat = eng.native("lunar_next_scan")
+        if nat in ("NONE", "PANIC", "UNKNOWN", ""):
+            return nat == "PANIC", "native scan: " + (nat or "no output")
+        return True, "LunarDay::next(n) is not the lunar date n civil days later: " + nat
+
+    r = run_kernel(eng, "02.d/B/lunar-day-next", "02.d", "every lunar day of every month (regular or leap, 29..30 days), |n| <= 1000", build, None, replay)
+    return _finish(r, holder["ctx"]) if "ctx" in holder else r
